@@ -160,24 +160,35 @@ def rule_PV(ctx, fm):
               == '(rc,ec,ic1)', 'return order is not (r, e, upper index)',
               ctx.where(fm, g))
     # component vectors and scaling
-    t = ast.unparse(pv).replace(' ', '')
-    want = ['vec1=(grid.cell_centers_x,grid.nodes_y,grid.nodes_z)',
-            'vec2=(grid.nodes_x,grid.cell_centers_y,grid.nodes_z)',
-            'vec3=(grid.nodes_x,grid.nodes_y,grid.cell_centers_z)',
-            'point_source(*vec1,coordinates[:3],vfield.fx)',
-            'point_source(*vec2,coordinates[:3],vfield.fy)',
-            'point_source(*vec3,coordinates[:3],vfield.fz)']
-    for w in want:
-        ctx.check('C09.PV.components', f'_point_vector `{w[:50]}`', w in t,
-                  'component grid vectors (centres along, nodes across) or '
-                  'their pairing with fx/fy/fz differ', ctx.where(fm, pv))
+    vf = find('_v_ = Field(_g_, dtype=float)', pv)
+    ctx.anchor(len(vf) == 1, 'vector field in _point_vector')
+    vn, gn = vf[0][1]['_v_'], vf[0][1]['_g_']
+    cp = au.params(pv)[1]
+    kinds = {0: ('cell_centers_x', 'nodes_y', 'nodes_z'),
+             1: ('nodes_x', 'cell_centers_y', 'nodes_z'),
+             2: ('nodes_x', 'nodes_y', 'cell_centers_z')}
+    for a, comp in enumerate(('fx', 'fy', 'fz')):
+        c = find(f'{psf.name}(*_vec_, {cp}[:3], {vn}.{comp})', pv)
+        ok = len(c) == 1
+        if ok:
+            vec = c[0][1]['_vec_']
+            k = kinds[a]
+            ok = has(f'{vec} = ({gn}.{k[0]}, {gn}.{k[1]}, {gn}.{k[2]})', pv)
+        ctx.check('C09.PV.components', f'_point_vector component {comp}: '
+                  'centres along, nodes across', ok, 'component grid vectors '
+                  f'of {comp} are not (centres along its own axis, nodes '
+                  'across)', ctx.where(fm, pv))
+    sd = find(f'_s_ = electrodes.rotation(*{cp}[3:])', pv)
+    ctx.check('C09.PV.components', '_point_vector direction cosines',
+              len(sd) == 1, 'direction is not rotation(azimuth, elevation) '
+              'of the coordinates', ctx.where(fm, pv))
+    sdn = sd[0][1]['_s_'] if sd else 'srcdir'
     for a, comp in enumerate(('fx', 'fy', 'fz')):
         ctx.check('C09.PV.components', f'_point_vector scales {comp} by '
-                  f'rotation[{a}]', f'vfield.{comp}*=srcdir[{a}]' in t and
-                  'srcdir=electrodes.rotation(*coordinates[3:])' in t,
+                  f'rotation[{a}]', has(f'{vn}.{comp} *= {sdn}[{a}]', pv),
                   'component is not scaled by its direction cosine',
                   ctx.where(fm, pv))
-    ctx.floor('C09.PV.components', 9)
+    ctx.floor('C09.PV.components', 7)
 
 
 def rule_RC(ctx, fm):
@@ -227,21 +238,29 @@ def rule_RC(ctx, fm):
                   for n in acc) and bool(acc),
               'component contributions overwrite instead of accumulate',
               ctx.where(fm, loop[0]))
-    t = ast.unparse(gr).replace(' ', '')
+    gp_ = au.params(gr)
     ctx.check('C09.RC.order', 'get_receiver: linear mode fills with NaN',
-              "ifmethod=='linear':opts['fill_value']=np.nan" in
-              t.replace('\n', ''), 'outside points do not give NaN in linear '
-              'mode', ctx.where(fm, gr))
-    lt = ast.unparse(loop[0]).replace(' ', '')
+              any(has(f"{gp_[2]} == 'linear'", n.test) and
+                  has("_o_['fill_value'] = np.nan", n.body)
+                  for n in ast.walk(gr) if isinstance(n, ast.If)),
+              'outside points do not give NaN in linear mode',
+              ctx.where(fm, gr))
+    fc = find('_f_ = electrodes.rotation(*_c_[3:])', gr)
+    lp2 = find(f'for _i_, _ff_ in enumerate(({gp_[0]}.fx, {gp_[0]}.fy, '
+               f'{gp_[0]}.fz)):\n    __', gr)
+    ok = len(fc) == 1 and isinstance(loop[0].target, ast.Tuple) and has(
+        f'({gp_[0]}.fx, {gp_[0]}.fy, {gp_[0]}.fz)', loop[0].iter)
+    if ok:
+        i_, ff = (x.id for x in loop[0].target.elts)
+        ok = has(f'_r_ += {fc[0][1]["_f_"]}[{i_}] * maps.interpolate(_g_, '
+                 f'{ff}, _xi_, **_o_)', loop[0])
     ctx.check('C09.RC.factors', 'get_receiver: factor / component pairing',
-              'fori,ffinenumerate((field.fx,field.fy,field.fz)):' in lt and
-              'resp+=factors[i]*maps.interpolate(grid,ff,xi,**opts)' in lt
-              and 'factors=electrodes.rotation(*coordinates[3:])' in t,
-              'components are not weighted by their own direction cosine',
+              ok, 'components are not weighted by their own direction cosine',
               ctx.where(fm, loop[0]))
     ctx.check('C09.RC.factors', 'get_receiver: no extrapolation, no log',
-              "opts={'method':method,'extrapolate':False,'log':False}" in t,
-              'sampling options changed', ctx.where(fm, gr))
+              has(f"_o_ = {{'method': {gp_[2]}, 'extrapolate': False, "
+                  "'log': False}", gr), 'sampling options changed',
+              ctx.where(fm, gr))
 
 
 def rule_RO(ctx):
